@@ -1,7 +1,7 @@
 (* C06 - multi-hop packets: at-most-once delivery and forwarding, shrinking hop budget.
    Audited statements only; proofs in Proofs/LocTProofs.v and Proofs/RouterProofs.v. *)
-From FlexVerif Require Import Base.Prelude Base.Bits Model.LocT Model.Wire Model.Router Proofs.LocTProofs Proofs.RouterProofs
-  Proofs.ForwardCopy Proofs.ForwardCopyGeo Proofs.FloodProofs.
+From FlexVerif Require Import Base.Prelude Base.Bits Model.LocT Model.Wire Model.Router Model.RouterSecured
+  Proofs.LocTProofs Proofs.RouterProofs Proofs.ForwardCopy Proofs.ForwardCopyGeo Proofs.FloodProofs Proofs.ForwardSecured.
 
 (* -- duplicate detection: once (SO, SN) was accepted, a duplicate is rejected for as long as fewer than
       itsGnDPLLength other sequence numbers of SO have been accepted since -- *)
@@ -128,6 +128,25 @@ Theorem C06_forwarded_guc_is_octet_copy_without_refresh : forall m s now g pkt b
   p = firstn 3 pkt ++ [arg 5 bv - 1] ++ skipn 4 pkt.
 Proof. exact guc_forward_is_copy. Qed.
 Print Assumptions C06_forwarded_guc_is_octet_copy_without_refresh.
+
+(* -- packets received as SECURED packets (Basic Header NH = 2; rx_secured: the verify service is an oracle that
+      returns the plain message).  The full clause - the forwarded copy keeps the first three octets of the received
+      packet, as for unsecured packets above - is FALSE of the code (known finding KF-C06-1): the copy leaves as an
+      unsecured packet.  What does hold: it carries the received Basic Header with NH rewritten to 1 and RHL - 1, and
+      none is made for RHL 0 or 1.  All other clauses (duplicates, own address, at most one copy, CBF) are inherited
+      from rx, which rx_secured calls on the plain message. -- *)
+Definition C06_secured_forward_full : Prop := secured_forward_keeps_basic_header.
+
+Theorem C06_secured_forward_refuted : ~ C06_secured_forward_full.
+Proof. exact secured_forward_refuted. Qed.
+Print Assumptions C06_secured_forward_refuted.
+
+Theorem C06_secured_forward_actual : forall m s now g pkt plain bv p,
+  dec_basic pkt = Some bv -> arg 0 bv = 1 -> arg 1 bv = 2 -> wf_basic (bv_nh bv 1) = true ->
+  In (OFwd p) (snd (rx_secured m s now g pkt plain)) ->
+  1 < arg 5 bv /\ exists rest, p = enc_basic (bv_rhl (bv_nh bv 1) (arg 5 bv - 1)) ++ rest.
+Proof. exact secured_forward_actual. Qed.
+Print Assumptions C06_secured_forward_actual.
 
 (* -- unicast: the destination position vector is refreshed only by a strictly newer one of a neighbour -- *)
 Theorem C06_de_pv_refreshed_only_by_newer : forall t de, refresh_de t de = de \/
